@@ -154,9 +154,45 @@ pub fn u_term(f: &F, min_components: usize, thorough: bool) -> Vec<LTerm> {
         }
     }
     out.extend(reducible(f));
+    out.extend(chains3(f));
     // deep: chains of every constructor, the nested component in every position
     for d in if thorough { vec![2usize, 3, 4, 5, 6, 7, 8, 15, 16, 17, 31, 32, 33, 64] } else { vec![2usize, 3, 8, 16, 17, 33, 64] } {
         out.extend(towers(f, d));
+    }
+    out
+}
+
+/// Chains: every ordered triple of lexical constructors (12 connecters, 2 set bracket pairs, 13
+/// copulas: 27^3 triples) nested in one another, the nested child last at every level, and - in a
+/// second copy - first (`reps` holds one value per constructor, `apply_all(reps)` every pair).
+pub fn chains3(f: &F) -> Vec<LTerm> {
+    let a = atom("", "a");
+    let b = atom(f.e.atom.prefix_variable_independent, "b1");
+    let o = atom(f.e.atom.prefix_variable_dependent, "c");
+    let cb = &f.e.compound;
+    let conns = f.connecters();
+    let cops = f.copulas();
+    let sets = [cb.brackets_set_extension, cb.brackets_set_intension];
+    let n = conns.len() + sets.len() + cops.len();
+    let mk = |kind: usize, x: LTerm, y: LTerm| -> LTerm {
+        if kind < conns.len() {
+            LTerm::Compound { connecter: conns[kind].to_string(), terms: vec![x, y] }
+        } else if kind < conns.len() + sets.len() {
+            let (l, r) = sets[kind - conns.len()];
+            LTerm::Set { left_bracket: l.to_string(), terms: vec![x, y], right_bracket: r.to_string() }
+        } else {
+            LTerm::Statement { copula: cops[kind - conns.len() - sets.len()].to_string(), subject: Box::new(x), predicate: Box::new(y) }
+        }
+    };
+    let mut out = Vec::with_capacity(n * n * n * 2);
+    for k1 in 0..n {
+        for k2 in 0..n {
+            for k3 in 0..n {
+                let inner = mk(k3, a.clone(), b.clone());
+                out.push(mk(k1, o.clone(), mk(k2, o.clone(), inner.clone())));
+                out.push(mk(k1, mk(k2, inner, o.clone()), o.clone()));
+            }
+        }
     }
     out
 }
